@@ -74,6 +74,14 @@ fn main() {
         }
         return;
     }
+    if args.prop == "gen15" {
+        props::c15::generate(&args);
+        return;
+    }
+    if args.prop == "gen07" {
+        props::c07::generate(&args);
+        return;
+    }
     if args.prop == "gen06" {
         props::c06::generate(&args);
         return;
